@@ -418,6 +418,12 @@ func (w *world) judge(seed int64, name string, qd time.Duration) {
 	spin := w.quiet(qd, 20*qd)
 	nf := w.nonFinal()
 	conn := w.allConnected()
+	if len(nf) > 0 && conn {
+		// something is not final although every target is connected: before this is called a stall, deliveries that are
+		// merely late (a starved machine) get a window six times as long; a lost wake-up stays lost however long one waits
+		spin = w.quiet(6*qd, 40*qd)
+		nf = w.nonFinal()
+	}
 	st := w.state()
 	enabled := w.prod()
 	w.quiet(qd, 20*qd)
